@@ -66,6 +66,7 @@ def regex_pred(ex, pattern, insensitive, hay):
         try:
             r = rx.is_match(pattern, insensitive, hay)
             ex.uni.memo[key] = r
+            ex.uni.alive.append(hay)
             ex.uni.memo.setdefault(('re_interpreted',), set()).add((pattern, insensitive))
         except rx.RxUnsupported:
             r = None
@@ -78,6 +79,7 @@ def regex_pred(ex, pattern, insensitive, hay):
                 ex.add_axiom(z3.Implies(z3bool(eq), r == r2))
         uses.append((hay, r))
         ex.uni.memo[key] = r
+        ex.uni.alive.append(hay)
     return r
 
 
